@@ -20,6 +20,10 @@ def r1_exit_status(ctx):
         for s in rs.blocks[b]["s"]:
             if s["lhs"]["l"] == 0 and not s["lhs"]["p"]:
                 rets.append((b, sh(ne(rs.deep_rvalue(s["rv"])))))
+    # a status produced by a call (ExitCode::from(<computed>)) is no constant either
+    for c in rs.calls():
+        if c.dest is not None and c.dest["l"] == 0 and not c.dest["p"]:
+            rets.append((c.block, "%s(%s)" % ((c.callee or "?").split("::")[-1], ",".join(sh(ne(rs.deep(a)))[:40] for a in c.args))))
     n_succ = 0
     for b, val in rets:
         cons = {}
@@ -45,7 +49,7 @@ def r1_exit_status(ctx):
             else:
                 ctx.ok("failure|%s" % ",".join(sorted(k for k, v in cons.items() if not v) or ["-"]), rs.where(b), "FAILURE after an error stage")
         else:
-            ctx.bad("exit-value|%s" % val, rs.where(b), "run_source returns %s" % val)
+            ctx.bad("exit-value|%s" % val[:40], rs.where(b), "run_source returns the computed status `%s` instead of one of the two constants: whether a run with error diagnostics exits non-zero then depends on a value (a count truncated to 8 bits is 0 for 256 errors)" % val[:80])
     ctx.floor("SUCCESS returns of run_source", n_succ, 1)
     # nothing runs after an error diagnostic
     run = rs.calls_to(LIBP + "runtime::Runtime::run_with_analysis")
@@ -175,6 +179,27 @@ def r2_same_wiring(ctx):
         ctx.bad("wasm|scratch-args|%s" % ",".join(wscratch), "wasm/src/lib.rs", "scratch_arena arguments in the playground: %s" % wscratch)
 
 
+def r2c_routes_are_labelled_apart(ctx):
+    """The three ways a script reaches the CLI (file, --eval, stdin) hand run_source three different source labels, so the
+    location line of a diagnostic says which input it is about.  (A weaker clause: the library takes the label as a
+    parameter; what is checked is only that the CLI does not give two routes the same one.)"""
+    labels = []
+    for fn in ctx.bin.fns.values():
+        for c in fn.calls():
+            if (c.callee or "") == "cmd::run_source":
+                labels.append((fn, c, sh(ne(fn.deep(c.args[0])))))
+    ctx.floor("calls of run_source in the CLI", len(labels), 3)
+    seen = {}
+    for fn, c, t in labels:
+        seen.setdefault(t, []).append((fn, c))
+    dup = {t: v for t, v in seen.items() if len(v) > 1 and t.startswith('"')}
+    if dup:
+        t, v = sorted(dup.items())[0]
+        ctx.bad("route-label|duplicate|%s" % t.strip('"')[:16], v[1][0].where(v[1][1].block), "two routes of the CLI run their source under the same label %s: diagnostics of one input are attributed to another (`naija --eval ..` prints ` --> <stdin>:1:7`)" % t)
+    else:
+        ctx.ok("route-labels-distinct", labels[0][0].where(labels[0][1].block) if labels else "src/bin", "labels %s" % sorted(seen))
+
+
 def r2b_cli_prints_the_library_rendering(ctx):
     """What the CLI prints is, byte for byte, what the library (and the playground) computes: Diagnostics::report - the only
     printing entry point - prints the result of render_ansi and renders nothing on its own."""
@@ -302,7 +327,7 @@ def r4_global_state(ctx):
         ctx.bad("statics|users|%s" % ",".join(sorted(users - allowed)), "src", "S_SCRATCH accessed from %s" % sorted(users - allowed))
 
 
-RULES = [("C14-R1", r1_exit_status), ("C14-R2", r2_same_wiring), ("C14-R2b", r2b_cli_prints_the_library_rendering), ("C14-R3", r3_scratch_rule), ("C14-R4", r4_global_state)]
+RULES = [("C14-R1", r1_exit_status), ("C14-R2", r2_same_wiring), ("C14-R2b", r2b_cli_prints_the_library_rendering), ("C14-R2c", r2c_routes_are_labelled_apart), ("C14-R3", r3_scratch_rule), ("C14-R4", r4_global_state)]
 
 EXPLANATION = (
     "R1: every return of cmd::run_source that yields ExitCode::SUCCESS is edge-dominated by 'no parse diagnostics', 'no "
